@@ -25,6 +25,18 @@ pub fn seeds(seed: u64, nrand: usize) -> Vec<(String, Vec<u8>)> {
         ("32:zero".into(), vec![0; 32]),
         ("32:ff".into(), vec![0xff; 32]),
     ];
+    // long seeds (buffer-size boundaries of common readers: 4 kB, 8 kB, 64 kB) and pairs of long seeds that
+    // share a long prefix
+    for len in [4095usize, 4096, 4097, 8191, 8192, 8193, 16384, 65535, 65536, 65537, 1 << 20] {
+        let b = rand_bytes(&mut rng, len);
+        out.push((format!("long-len={len}"), b.clone()));
+        if len > 8192 {
+            let mut c = b.clone();
+            let l = c.len();
+            c[l - 1] ^= 1;
+            out.push((format!("long-len={len}^lastbit"), c));
+        }
+    }
     for len in [31usize, 32, 33, 64, 135, 136, 137, 271, 272, 273, 1000] {
         out.push((format!("len={len}"), rand_bytes(&mut rng, len)));
     }
@@ -201,6 +213,33 @@ pub fn run(rep: &mut Rep) {
                     rep.violation("seeded:entry-point:ffi::seeded_extended_key_gen", json!({"seed": lab}));
                 }
             }
+            // the same seeds delivered by a reader that returns short reads (1..7 bytes at a time)
+            struct Dribble<'a>(&'a [u8], usize);
+            impl<'a> std::io::Read for Dribble<'a> {
+                fn read(&mut self, buf: &mut [u8]) -> std::io::Result<usize> {
+                    let n = (1 + self.1 % 7).min(self.0.len()).min(buf.len());
+                    buf[..n].copy_from_slice(&self.0[..n]);
+                    self.0 = &self.0[n..];
+                    self.1 += 1;
+                    Ok(n)
+                }
+            }
+            for ((lab, s), got) in sl.iter().zip(mine.iter()).filter(|x| x.0 .1.len() <= 20_000).take(60) {
+                rep.ev();
+                let want2: Vec<u8> = [enc_fr(&got[0]), enc_fr(&got[1])].concat();
+                let mut o = vec![];
+                let _ = r.seeded_key_gen(Dribble(s, 0), &mut o);
+                if o != want2 {
+                    rep.violation("seeded:entry-point:RLN::seeded_key_gen(short reads)", json!({"seed": lab, "len": s.len()}));
+                }
+                let want4: Vec<u8> = [enc_fr(&got[2]), enc_fr(&got[3]), enc_fr(&got[4]), enc_fr(&got[5])].concat();
+                let mut o = vec![];
+                let _ = r.seeded_extended_key_gen(Dribble(s, 3), &mut o);
+                if o != want4 {
+                    rep.violation("seeded:entry-point:RLN::seeded_extended_key_gen(short reads)", json!({"seed": lab, "len": s.len()}));
+                }
+            }
+            rep.stratum("entry|RLN(short reads)");
             rep.stratum("entry|RLN");
             rep.stratum("entry|ffi");
             // unseeded through RLN / FFI: relations + canonical encodings + distinctness
